@@ -7,6 +7,8 @@ CONSTANTS
   AllowWAL = TRUE
   FinModes = {"DELETE"}
   AllowSpill = FALSE
+  AllowBeyond = FALSE
+  FixBeyond = TRUE
   AllowNoSync = FALSE
   FixOOB = TRUE
   FixFirstRb = TRUE
